@@ -57,21 +57,21 @@ Lemma wl_overdue_step toks a s ov s' ov' :
   sinv toks s -> 0 <= ov -> wlstep false a (s, ov) = Some (s', ov') -> 0 <= ov'.
 Proof.
   intros I Hov. destruct I as (_ & I2 & _). unfold wlstep. destruct a as [d|c|fail pc].
-  - destruct (sstep (STick d) s); intros H; inversion H; subst; exact Hov.
-  - destruct (sstep (SCancel c) s); intros H; inversion H; subst; exact Hov.
+  - destruct (sstep (STick d) s); intros HH; inversion HH; subst; exact Hov.
+  - destruct (sstep (SCancel c) s); intros HH; inversion HH; subst; exact Hov.
   - destruct s as [p r st ln ck cn]. cbn [spc rest started lastNow clock cancelled set_spc] in *.
     destruct p as [| |tk|tk|tk|e].
-    + destruct cn; intros H; inversion H; subst; lia.
-    + destruct r; intros H; inversion H; subst; lia.
+    + destruct cn; intros HH; inversion HH; subst; lia.
+    + destruct r; intros HH; inversion HH; subst; lia.
     + unfold release_now. destruct ln as [l|].
       * destruct (Z.leb_spec (tk - l) 0).
-        -- destruct (l - tk <? max_overdue_ns); intros H; inversion H; subst; lia.
-        -- destruct (Z.leb_spec (tk - ck) 0); intros H; inversion H; subst; lia.
-      * destruct (Z.leb_spec (tk - ck) 0); intros H; inversion H; subst; lia.
+        -- destruct (l - tk <? max_overdue_ns); intros HH; inversion HH; subst; lia.
+        -- destruct (Z.leb_spec (tk - ck) 0); intros HH; inversion HH; subst; lia.
+      * destruct (Z.leb_spec (tk - ck) 0); intros HH; inversion HH; subst; lia.
     + match goal with |- context [match ?x with Some _ => _ | None => None end] => destruct x end;
-        intros H; inversion H; subst; exact Hov.
+        intros HH; inversion HH; subst; exact Hov.
     + match goal with |- context [match ?x with Some _ => _ | None => None end] => destruct x end;
-        intros H; inversion H; subst; exact Hov.
+        intros HH; inversion HH; subst; exact Hov.
     + intros H; discriminate.
 Qed.
 
@@ -108,7 +108,7 @@ Proof.
   intros P. unfold wlstep. destruct s as [p r st ln ck cn].
   cbn [spc rest started lastNow clock cancelled set_spc] in *. subst p.
   unfold Waiter.wait, wcall_of, release_now, Waiter.max_overdue, max_overdue_ns.
-  cbn [Waiter.c_ctx_done Waiter.c_tok Waiter.c_now Waiter.c_cancel_in_sleep Waiter.lastNow Waiter.overdue].
+  cbn [Waiter.c_ctx_done Waiter.c_tok Waiter.c_now Waiter.c_cancel_in_sleep Waiter.lastNow Waiter.overdue clock lastNow].
   destruct ln as [l|].
   - destruct (tk - l <=? 0).
     + destruct (l - tk <? 2000000000); intros H; inversion H; subst;
